@@ -740,6 +740,44 @@ func runStages(c *core.Ctx) []core.Obligation {
 		}
 		add("zero-only-exact:"+name, fn, ok, fmt.Sprintf("%d constant-zero returns, each behind an identity test of two arguments; every other zero comes from the exact stage", nzero), why)
 	}
+	// (8d) the exact distance comparison decides the "cosines of different sign" case by comparing the two signs with
+	// each other (after seeds C02-r6m2 / C02-r7m1, `aSign > bSign` turned into `aSign > 0`): signs are -1, 0, +1, and a
+	// test of one sign against a constant gives the wrong answer for the pairs that contain a zero (AX exactly 90
+	// degrees and BX a hair beyond: cos(AX) = 0 > cos(BX), so AX < BX, but 0 > 0 is false).
+	if fn := c.Fn("s2", "", "exactCompareDistances"); fn != nil {
+		isSign := func(v ssa.Value) bool {
+			call, ok := v.(*ssa.Call)
+			return ok && core.StaticCallee(call) != nil && core.StaticCallee(call).Name() == "Sign"
+		}
+		var neq *ssa.BasicBlock
+		for _, b := range fn.Blocks {
+			if iff, ok := b.Instrs[len(b.Instrs)-1].(*ssa.If); ok {
+				if bo, ok := iff.Cond.(*ssa.BinOp); ok && bo.Op == token.NEQ && isSign(bo.X) && isSign(bo.Y) && bo.X != bo.Y {
+					neq = b
+				}
+			}
+		}
+		if neq == nil {
+			add("exactCompareDistances:sign-case-compares-both-signs", fn, false, "", "unresolved anchor: the test aSign != bSign was not found")
+		} else {
+			ok, n := true, 0
+			for _, b := range fn.Blocks {
+				iff, isIf := b.Instrs[len(b.Instrs)-1].(*ssa.If)
+				if !isIf || !core.EdgeDominates(core.Edge{From: neq, Idx: 0}, b) {
+					continue
+				}
+				n++
+				bo, isBo := iff.Cond.(*ssa.BinOp)
+				if !isBo || !isSign(bo.X) || !isSign(bo.Y) || bo.X == bo.Y {
+					ok = false
+				}
+			}
+			add("exactCompareDistances:sign-case-compares-both-signs", fn, ok && n > 0, "when the two cosines have different signs the answer is decided by comparing the signs with each other",
+				"in the 'cosines have different signs' case the decision does not compare the two signs with each other: a sign is -1, 0 or +1, and testing one of them against a constant is wrong for the pairs with a zero (AX exactly 90 degrees, BX a hair more: CompareDistances answers +1 for AX < BX, and also +1 with A and B swapped)")
+		}
+	} else {
+		add("exactCompareDistances:sign-case-compares-both-signs", nil, false, "", "unresolved anchor")
+	}
 	// (9) who may call the incomplete stages: triageSign and stableSign may answer Indeterminate and expensiveSign/exactSign
 	// have preconditions; only the staged evaluators (which go on to the next stage) may call them. Anything else that
 	// needs an orientation calls RobustSign/Sign.
